@@ -16,6 +16,8 @@ RULE = ("library = RFC-transcribed model, byte for byte: S2K simple/salted for 9
         "plus library decrypts its own output (direct predicate)")
 TRUSTED = [
     "model files: coq/theories/Kdf/Kdf.v, Sym/Cfb.v, Aead/Seipd2.v (written from RFC 9580 / 3394 / 5869 / 2104 / 6637); theorems coq/theories/Props/C12.v",
+    "both stream encryptors are also modelled as the staged producers they are (Sym/Seipd1EncMachine.v, Aead/Seipd2EncMachine.v over Io/Emitter.v) and proved to deliver seipd1_enc / seipd2_enc for every sequence of read sizes; "
+    "the model driver runs machine and one-shot construction on every v1enc / v2enc case; the AEAD key-locking KDF info string is Kdf.keylock_info (compared with Lock.aead_info)",
     "primitives (hashes, block ciphers, AEAD modes, Argon2) come from the oracle `prims` = the RustCrypto crates the library itself uses: a bug inside one of them is invisible here",
     "for iterated S2K counts above 65536 octets the repetition salt+password is performed by the oracle (hashrep) with the count from the extracted decode_count",
     "not covered in this direction: library ECDH/X25519 *encrypt* -> model decrypt (needs curve arithmetic); covered: model-shaped input -> library decrypt, and the KDF/wrap pieces separately",
